@@ -906,7 +906,8 @@ static void process_line(char *line)
         } else if (!strcmp(op, "settle")) {
                 /* call until OK (at most max calls), then once more (C15 epilogue) */
                 long max = n > 1 ? atol(tok[1]) : 100000; long i = 0, r = 1;
-                while (i < max) { r = call_service(); i++; if (!compact) auto_queries(); if (r == 0) break; }
+                while (i < max) { r = call_service(); i++; if (!compact) auto_queries(); if (r == 0 && in_head == in_tail) break; }
+                if (r == 0 && in_head != in_tail) r = 1;
                 flush_merged(last_svc_ret);
                 if (compact) auto_queries();
                 fprintf(out, "{\"e\":\"env\",\"f\":\"settled\",\"ok\":%s,\"calls\":%ld}\n", r == 0 ? "true" : "false", i);
